@@ -10,14 +10,19 @@ import json, sys
 
 pid = sys.argv[1]
 hint = sys.argv[2] if len(sys.argv) > 2 else ""
+# optional third argument: free-text focus hint; then argv[2] is only the name
+# suffix of the worktree / delivery directory (second and later rounds)
+suffix = hint
+if len(sys.argv) > 3:
+    hint = sys.argv[3]
 prop = None
 for l in open('/verif/properties.jsonl'):
     p = json.loads(l)
     if p['id'] == pid:
         prop = p
 assert prop, pid
-wt = f"/tmp/wt/{pid}{('-' + hint) if hint else ''}"
-out = f"/tmp/seed/{pid}{('-' + hint) if hint else ''}"
+wt = f"/tmp/wt/{pid}{('-' + suffix) if suffix else ''}"
+out = f"/tmp/seed/{pid}{('-' + suffix) if suffix else ''}"
 anchors = prop['anchors']
 print(f"""You are helping to evaluate a verification framework for go-ethereum by producing ONE realistic, subtle bug ("seeded change").
 
